@@ -66,6 +66,9 @@ CLAIMED = {
  "C07": ("path-sensitive classification of estimate stores (proved non-raising vs gated) with comparator / operand-provenance check of the demand gate over go/ssa",
          "Static: every store of the estimate on a non-drop path that is not proved <= the old estimate lies behind the established fact ratio x inFlight >= estimate (ratio 2 for Vegas/Gradient/Gradient2, 1 for AIMD) on the sample's in-flight parameter and the current estimate; every path that computes a new estimate stores it. One recorded known finding (Gradient's probe reset is not gated). The recovery half (bounded-steps return to the ceiling) is not applicable.",
          "5/C07"),
+ "C08": ("monotonic-polarity analysis of SSA expressions along paths (with sign side-conditions from the bound prover) + classification of every rtt-dependent branch against a closed list of monotone idioms over go/ssa",
+         "Static necessary sign conditions for Vegas and Gradient: Vegas's queue estimate is non-decreasing in rtt and every raise / lower outcome is decided by an upper / lower bound on it; every estimate stored by Gradient is a non-increasing function of rtt on its path; rtt reaches control flow only through the baseline test (excluded by the property), a guard whose low-rtt side is proved >= its high-rtt side, the self-guarded smoothing idiom whose pieces meet at the old estimate, threshold comparisons of the control signal and effect-free logging diamonds. Gradient2, threshold ordering and rounding are not covered.",
+         "5/C08"),
 }
 
 PENDING_REASON = "check not built yet in this session; see DESIGN.md section 5 for the planned static obligations"
